@@ -53,8 +53,8 @@ func init() {
 		"klog is replaced by a lock-free logger (klog's global mutex would order every two tasks that log)",
 		"a race is reported only when the two accesses are unordered in an explored schedule: sampling"}, assumeW1...)}
 	realVsStub["ipam"] = map[string]string{
-		"real": "pkg/ipam/floatingip (crdIpam, store, pool config), pkg/ipam/schedulerplugin (Filter, Bind, unbind, Release, resync, event loop, Run/Init periodic loops, policies, crdKey), pkg/ipam/api (restful handlers on an in-process container), pkg/api/k8s/eventhandler, pkg/utils/{nets,page,httputil}, pkg/api/galaxy/constant",
-		"stub": "kube-apiserver/etcd, informers and listers, kube-scheduler, workload controllers, kubelet (simkube + world); crd.CrdCache (dynamic informer) behind its interface; cloud provider behind cloudprovider.CloudProvider; klog -> simlog",
+		"real": "pkg/ipam/floatingip (crdIpam, store, pool config), pkg/ipam/schedulerplugin (Filter, Bind, unbind, Release, resync, event loop, Run/Init periodic loops, policies, crdKey), pkg/ipam/crd crdcache.go (lazy per-resource informer start, first sync awaited under the lock), pkg/ipam/api (restful handlers on an in-process container), pkg/api/k8s/eventhandler, pkg/utils/{nets,page,httputil}, pkg/api/galaxy/constant",
+		"stub": "kube-apiserver/etcd, informers and listers, kube-scheduler, workload controllers, kubelet (simkube + world); client-go's dynamic informer factory under the real crd cache (kubeclient.DynFactory); cloud provider behind cloudprovider.CloudProvider; klog -> simlog",
 		"not_run": "pkg/ipam/server (flags, leader election, HTTP listeners, swagger, prometheus registry), cmd/*, gRPC cloud provider client",
 	}
 }
